@@ -46,6 +46,8 @@ var treeShapes = []treeShape{
 	{"root-ignores-sigterm", `trap "" TERM; echo PID:$$; sleep 311 & echo PID:$!; wait; :`, false},
 	{"parent-exits-before-its-child", `echo PID:$$; sleep 311 & echo PID:$!; exit 0`, true},
 	{"parent-exits-child-detached-from-the-pipes", `echo PID:$$; sleep 311 >/dev/null 2>&1 & echo PID:$!; exit 0`, true},
+	{"detached-child-ignores-sigterm", `echo PID:$$; (trap "" TERM; exec sleep 311) >/dev/null 2>&1 & echo PID:$!; wait`, false},
+	{"parent-exits-detached-child-ignores-sigterm", `echo PID:$$; (trap "" TERM; exec sleep 311) >/dev/null 2>&1 & echo PID:$!; exit 0`, true},
 }
 
 var pidRe = regexp.MustCompile(`PID:(\d+)`)
@@ -222,7 +224,7 @@ func procTreeChild(args []string) {
 
 func procTreeMain(args []string) {
 	o := hx.ParseOpts(args)
-	rep := hx.NewReport("process trees (single, chain of three, fan of three, background child holding the output pipes, descendant / root ignoring SIGTERM, parent exiting before its child) x start {Execute, Start, supervisor} x stop {context cancel, context deadline, Cancel(), Stop(), Restart()} x stop instant {right after the spawn, 30 ms, 150 ms}, plus the same object reused after a first start / stop cycle; " +
+	rep := hx.NewReport("process trees (single, chain of three, fan of three, background child holding the output pipes, descendant / root ignoring SIGTERM, parent exiting before its child, children detached from the pipes with and without SIGTERM ignored) x start {Execute, Start, supervisor} x stop {context cancel, context deadline, Cancel(), Stop(), Restart()} x stop instant {right after the spawn, 30 ms, 150 ms}, plus the same object reused after a first start / stop cycle; " +
 		"each case in its own process; bound for Execute() / Stop() to return after the stop request: 3 s. non-trivial = the tree has at least one descendant; distinct = (shape, start, stop, instant).")
 	instants := []int{0, 30, 150}
 	if !o.Thorough() {
